@@ -19,6 +19,9 @@ structure Region where
   blk : Nat
   addr : Nat     -- absolute start address
   size : Nat
+  align : Nat    -- the alignment that was asked for
+  blockBase : Nat
+  blockSize : Nat
   deriving Repr, Inhabited
 
 /-- `(*span).Malloc(n, align)`; `fresh` is the address the runtime returns if a new block is
@@ -31,7 +34,8 @@ def SpanSt.malloc (blockSize : Nat) (s : SpanSt) (fresh : Nat) (n align : Nat) :
     else s
   let ret := s1.base + s1.p
   let off := alignUp ret mask - ret
-  ({ s1 with p := s1.p + n + off }, { blk := s1.blk, addr := ret + off, size := n })
+  ({ s1 with p := s1.p + n + off },
+   { blk := s1.blk, addr := ret + off, size := n, align := align, blockBase := s1.base, blockSize := s1.n })
 
 def SpanSt.init (blockSize base : Nat) : SpanSt := { p := 0, n := blockSize, base := base, blk := 0 }
 
@@ -50,5 +54,12 @@ def spanRun (P : Params) : SpanSt → List (Nat × Nat × Nat) → List String
 
 def spanRunStr (P : Params) (reqs : List (Nat × Nat × Nat)) (initBaseMod : Nat) : String :=
   " ".intercalate (spanRun P (SpanSt.init P.blockSize initBaseMod) reqs)
+
+/-- all regions handed out by a request list `(n, align, fresh)` -/
+def spanRegions (bs : Nat) : SpanSt → List (Nat × Nat × Nat) → List Region
+  | _, [] => []
+  | s, (n, a, fresh) :: r =>
+    let (s', reg) := s.malloc bs fresh n a
+    reg :: spanRegions bs s' r
 
 end Frugal
